@@ -64,7 +64,7 @@ na=[{"property_id":i,"reason":"check not built yet (work in progress; see DESIGN
 m={"version":1,"setup_cmd":"./verif.sh setup",
  "hooks":{"guard":"verif","enable":"go build -tags verif (done by ./verif.sh; harness module replaces go.uber.org/dig with /repo)",
   "baseline_off_cmd":"cd /repo && GOFLAGS=-mod=mod GOPROXY=off GOSUMDB=off GOTOOLCHAIN=local go test -vet=off -count=1 ./...",
-  "source_commits":["3162adb"],"add_only":True},
+  "source_commits":["3162adb","d439382"],"add_only":True},
  "engines":[{"name":"E-dyn","path":"/verif/harness","serves_properties":[c["property_id"] for c in checks],"kind_free_text":"runtime monitor: reflect-materialised user functions with provenance tokens, online spec-state trace checker, differential runner, child process per batch"},
   {"name":"E-pool","path":"/verif/harness/pool","serves_properties":["C18","C19","C20"],"kind_free_text":"384 generated declared functions (distinct code pointers) forwarding to the monitor body: constructor ids, locations, callback names"},
   {"name":"E-graph","path":"/verif/harness/c05.go","serves_properties":["C05"],"kind_free_text":"hook VerifIsAcyclic: the real cycle search on arbitrary digraphs"}],
